@@ -570,5 +570,25 @@ def cd_identity(prog: Program) -> RuleResult:
     return r
 
 
+def cd_generic(prog: Program) -> RuleResult:
+    """Which field of a role class is its role taker is said by the parameter of Role[...] - of the class itself *or of the class it inherits
+    it from*: class Senior(Employee) with Employee(Role[Person]) is a role of a Person too.  `cls.__orig_bases__` is found through the
+    ordinary attribute lookup and so is inherited; typing's get_original_bases(cls) reads the class's own namespace only and answers
+    (Employee,) - no parameter, and building the diagram raises on None[0]."""
+    r = RuleResult("CD-GENERIC", "the parameter of a generic base is found for subclasses of the parametrised class as well", floor=1)
+    f = next((f_ for f_ in prog.functions.values() if f_.name == "get_generic_type_param" and f_.cls is None and f_.module.name.endswith("class_diagrams.utils")), None)
+    if f is None:
+        raise AnalysisError("CD-GENERIC: class_diagrams.utils.get_generic_type_param vanished")
+    inherited = any((isinstance(x, ast.Call) and isinstance(x.func, ast.Name) and x.func.id == "getattr" and len(x.args) >= 2 and isinstance(x.args[1], ast.Constant) and x.args[1].value == "__orig_bases__")
+                    or (isinstance(x, ast.Attribute) and x.attr in ("__orig_bases__",)) for x in walk_local(f.node))
+    walks_mro = any(isinstance(x, ast.Attribute) and x.attr == "__mro__" for x in walk_local(f.node)) or any(isinstance(x, ast.Call) and call_name(x) == "mro" for x in walk_local(f.node))
+    own_only = [x for x in walk_local(f.node) if isinstance(x, ast.Call) and call_name(x) == "get_original_bases"] + [x for x in walk_local(f.node) if isinstance(x, ast.Subscript) and "__dict__" in src(x.value) and "__orig_bases__" in src(x.slice)]
+    ok = (inherited or walks_mro) and not (own_only and not walks_mro)
+    r.check(ok, f"{f.short}#inherited-parameter", site(f, own_only[0]) if own_only else site(f), src(own_only[0])[:60] if own_only else "__orig_bases__ through attribute lookup", "the generic bases are looked up with inheritance",
+            f"`{src(own_only[0])[:50] if own_only else 'no lookup of the generic bases'}` reads the class's own generic bases only: for a subclass of a parametrised role class the parameter is not found, "
+            "and the diagram of any class set that contains such a subclass cannot be built")
+    return r
+
+
 def run(prog: Program, tier: str) -> List[RuleResult]:
-    return [guard(lambda: wf_table(prog)), guard(lambda: cd_edges(prog)), guard(lambda: cd_readonly(prog)), guard(lambda: cd_memo(prog)), guard(lambda: cd_multi(prog)), guard(lambda: _shared_default(prog)), guard(lambda: wf_resolved(prog)), guard(lambda: cd_index(prog)), guard(lambda: cd_identity(prog))]
+    return [guard(lambda: wf_table(prog)), guard(lambda: cd_edges(prog)), guard(lambda: cd_readonly(prog)), guard(lambda: cd_memo(prog)), guard(lambda: cd_multi(prog)), guard(lambda: _shared_default(prog)), guard(lambda: wf_resolved(prog)), guard(lambda: cd_index(prog)), guard(lambda: cd_identity(prog)), guard(lambda: cd_generic(prog))]
